@@ -564,21 +564,24 @@ Definition option_requested (k : optkind) (v : optval) : option string :=
   end.
 
 (* a model with one plain `delay` edge and one `delay`+`spread` edge from two different source variables
-   (`first_plain`: the plain-delay edge is processed first).  One ring buffer in the network is enough for
-   `_uses_edge_delay_buffer`, so the guards treat it like DDiscrete; the vectorized compilation of this probe model
-   fails with KeyError today (loud, class EOther). *)
-Definition mixed_config (b : backend) (s : solver) (v : bool) (e : entry) : config := mkc b s v DDiscrete false true e.
+   (`first_plain`: the plain-delay edge is processed first).  Not vectorized: one ring buffer in the network is enough
+   for `_uses_edge_delay_buffer`, so the guards treat it like DDiscrete.  Vectorized: the two edges are merged into one
+   edge group that carries a spread, and the whole group is compiled to gamma-kernel chains (no ring buffer): the
+   guards treat it like DSpread.  (That the vectorized and the non-vectorized compilation of this model differ is C04's
+   subject, not C20's.) *)
+Definition mixed_config (b : backend) (s : solver) (v : bool) (e : entry) : config :=
+  mkc b s v (if v then DSpread else DDiscrete) false true e.
 Definition mixed_outcome (b : backend) (s : solver) (v : bool) (first_plain : bool) (e : entry) : result :=
-  andthen (validate_backend_args (mixed_config b s v e))
-          (if v then Err EOther else outcome (mixed_config b s v e)).
+  outcome (mixed_config b s v e).
 
 (* the same mixture through the PopulationTemplate / Connectivity API (NetworkGraph._add_matrix_delay): one population
    projecting onto itself through a plain-delay matrix connection and a delay+spread one, in either order.  The
    guards alone decide (an adaptive solver uses the ODE cascade, no history); on Fortran the probe model does not
    survive f2py (class EOther). *)
+Definition pop_config (b : backend) (s : solver) (v : bool) (e : entry) : config := mkc b s v DDiscrete false true e.
 Definition pop_outcome (b : backend) (s : solver) (v : bool) (first_plain : bool) (e : entry) : result :=
-  andthen (validate_backend_args (mixed_config b s v e))
-          (if backend_eqb b BFortran then Err EOther else accepts (mixed_config b s v e)).
+  andthen (validate_backend_args (pop_config b s v e))
+          (if backend_eqb b BFortran then Err EOther else accepts (pop_config b s v e)).
 
 Inductive probe :=
   | PConfig (c : config)
@@ -631,7 +634,8 @@ Definition NodeValueTarget (net : network) (p : path) : Prop :=
 Definition WellFormed (p : probe) : Prop :=
   match p with
   | PConfig c => Supported c
-  | PMixed b s v _ e | PPopMixed b s v _ e => Supported (mixed_config b s v e)
+  | PMixed b s v _ e => Supported (mixed_config b s v e)
+  | PPopMixed b s v _ e => Supported (pop_config b s v e)
   | PVname v => ~ Reserved v
   | PVars vars => (forall n t, In (n, t) vars -> ~ Reserved n) /\ count_outputs vars <= 1
   | PEquation d u => forall x, In x u -> In x d
@@ -661,7 +665,8 @@ Definition node_value_targetb (net : network) (p : path) : bool :=
 Definition wellformedb (p : probe) : bool :=
   match p with
   | PConfig c => supportedb c
-  | PMixed b s v _ e | PPopMixed b s v _ e => supportedb (mixed_config b s v e)
+  | PMixed b s v _ e => supportedb (mixed_config b s v e)
+  | PPopMixed b s v _ e => supportedb (pop_config b s v e)
   | PVname v => is_ok (check_vname v)
   | PVars vars => forallb (fun d => is_ok (check_vname (fst d))) vars && Nat.leb (count_outputs vars) 1
   | PEquation d u => forallb (fun x => mem x d) u
@@ -719,7 +724,8 @@ Definition g6 (f6 : bool) (c : config) : bool := f6 || entry_eqb (en c) ERun || 
 Definition guard_solver_checked_at_entry (p : probe) : bool :=
   match p with
   | PConfig c => g6 fixed_F6 c
-  | PMixed b s v _ e | PPopMixed b s v _ e => g6 fixed_F6 (mixed_config b s v e)
+  | PMixed b s v _ e => g6 fixed_F6 (mixed_config b s v e)
+  | PPopMixed b s v _ e => g6 fixed_F6 (pop_config b s v e)
   | _ => true end.
 Definition guard (p : probe) : bool :=
   guard_path_not_attr p && guard_node_value_not_circuit p && guard_backend_documented p && guard_solver_checked_at_entry p.
